@@ -17,7 +17,7 @@ with ThreadPoolExecutor(max_workers=6) as ex:
     results = list(ex.map(one, names))
 rows = []
 for name, res in results:
-    prop = name.split("-")[0].rstrip("bcdefg")
+    prop = name.split("-")[0].rstrip("bcdefgh")
     fired = res.get("fired", {})
     detected = [p for p, v in fired.items() if v["rc"] == 1]
     errors = [p for p, v in fired.items() if v["rc"] == 2]
@@ -40,4 +40,4 @@ for name, res in results:
     rows.append((name, meta["confirmed"]["suite_with_patch"], meta["confirmed"]["demo_with_patch_rc"], detected, errors))
 for r in rows:
     print(f"{r[0]:8} tests={str(r[1])[:10]:10} demo_rc={r[2]} detected={','.join(r[3]) or '-':30} errors={','.join(r[4]) or '-'}")
-print("caught by target check:", sum(1 for n, *_r in rows if n.split("-")[0].rstrip("bcdefg") in _r[2]), "/", len(rows), " by any:", sum(1 for r in rows if r[3]))
+print("caught by target check:", sum(1 for n, *_r in rows if n.split("-")[0].rstrip("bcdefgh") in _r[2]), "/", len(rows), " by any:", sum(1 for r in rows if r[3]))
